@@ -75,6 +75,7 @@ def plan_for(prop, tier, seed):
             ("tiny-rec", True, "dev", lambda ids, rng: G.f_tiny_placement(ids, rng, ifaces=("rec",), sample=0.35 if q else 1.0)),
             ("tiny-xport", True, "dev", lambda ids, rng: G.f_tiny_placement(ids, rng, ifaces=("spi", "p8", "p16"), sample=0.06 if q else 0.5)),
             ("tiny-nobatch", False, "dev", lambda ids, rng: G.f_tiny_placement(ids, rng, ifaces=("rec", "spi"), sample=0.08 if q else 0.5)),
+            ("smallalpha", True, "dev", lambda ids, rng: G.f_small_alphabet(ids, rng, 500 if q else 8000, ifaces=("spi", "spi", "p8", "p16", "rec"))),
         ]
     elif prop == "C02":
         p.rule = ("scenario = configuration + program of DrawTarget calls; non-trivial: at least one call carries an argument "
@@ -149,6 +150,7 @@ def plan_for(prop, tier, seed):
         p.families = [
             ("spi-grid", True, "dev", lambda ids, rng: G.f_spi_grid(ids, rng, sample=0.5 if q else 1.0, big=6 if q else 120)),
             ("spi-displays", True, "dev", lambda ids, rng: G.f_tiny_placement(ids, rng, ifaces=("spi",), sample=0.04 if q else 0.4)),
+            ("spi-smallalpha", True, "dev", lambda ids, rng: G.f_small_alphabet(ids, rng, 400 if q else 6000, ifaces=("spi",))),
         ]
     elif prop == "C07":
         p.rule = ("case = word sequences / repeat counts on the real ParallelInterface (8 and 16 pins) and set_value histories "
@@ -157,6 +159,7 @@ def plan_for(prop, tier, seed):
         p.families = [
             ("parallel", True, "dev", lambda ids, rng: G.f_parallel(ids, rng, sample=0.4 if q else 1.0, big=2 if q else 12)),
             ("parallel-displays", True, "dev", lambda ids, rng: G.f_tiny_placement(ids, rng, ifaces=("p8", "p16"), sample=0.03 if q else 0.3)),
+            ("parallel-smallalpha", True, "dev", lambda ids, rng: G.f_small_alphabet(ids, rng, 300 if q else 5000, ifaces=("p8", "p16"))),
         ]
     elif prop == "C09":
         p.rule = ("case = (width, height, offset_x, offset_y, framebuffer, reset pin) given to Builder::init; non-trivial: the "
